@@ -66,7 +66,7 @@ def allocBody (rd : Order â†’ List UInt8 â†’ GRes) (al : Order â†’ List UInt8 â†
           (match readRing h.order h.hasZ h.hasM bs with
            | .error _ => 0
            | .ok (_, bs) => (if k = 0 then 0 else 8 * k) + allocRings h.order h.hasZ h.hasM k bs)
-  | .compoundCurve => allocColl rd al isSimpleCurve 16 h bs
+  | .compoundCurve => allocColl rd al isSimpleCurve 9 h bs
   | .curvePolygon =>
     match readU32 h.order bs with
     | .error _ => 0
